@@ -818,10 +818,21 @@ class FunctionParser(BaseParser):
     async def async_from_generator(
         self, generator: AsyncGenerator, context: RuntimeContext
     ):
+        # same protocol as sync_from_generator: the value produced by asend() is the next item to yield
         i = 0
-        async for item in generator:
+        sent = None
+        while True:
+            try:
+                if sent is not None:
+                    item = await generator.asend(sent)
+                else:
+                    item = await generator.__anext__()
+            except StopAsyncIteration:
+                return
+
             if inspect.isasyncgen(item):
                 generator = item
+                sent = None
                 continue
 
             if self.generator_yield_type:
@@ -850,11 +861,6 @@ class FunctionParser(BaseParser):
                             origin_exc=e,
                         )
                         context.handle_error(error, force_raise=True)
-                # await generator.asend(sent)
-                try:
-                    await generator.asend(sent)
-                except StopAsyncIteration:
-                    return
             i += 1
 
     def get_async_generator(
@@ -888,13 +894,16 @@ class FunctionParser(BaseParser):
         @wraps(self.obj)
         async def async_generator(*args, **kwargs):
             async_gen = eager_generator(*args, **kwargs)
-            async for item in async_gen:
+            sent = None
+            while True:
+                try:
+                    if sent is not None:
+                        item = await async_gen.asend(sent)
+                    else:
+                        item = await async_gen.__anext__()
+                except StopAsyncIteration:
+                    return
                 sent = yield item
-                if sent is not None:
-                    try:
-                        await async_gen.asend(sent)
-                    except StopAsyncIteration:
-                        return
 
         return async_generator
 
